@@ -292,8 +292,10 @@ def bounded_words(chk, lib, body, why, maxlen=None):
     words = [None, []]
     for l in range(1, L + 1):
         words += [list(w) for w in itertools.product(RELS, repeat=l)]
+    branch_log = set()
     for w in words:
         m = WordModel(w)
+        m.branch_log = branch_log
         it = Interp(lib, m)
         n_words += 1
         try:
@@ -316,6 +318,11 @@ def bounded_words(chk, lib, body, why, maxlen=None):
     chk.ob('R12.3', "all %d words up to length %d are classified as the reference classifier does (first deviation: %s)" % (n_words, L, first_bad),
            bad == 0, body['span'], 'bounded-words')
     chk.floor('R12.3', 'words evaluated', n_words, 1000)
+    # a bounded exploration says nothing about code it never executed (a path taken only on long vectors)
+    from .c11 import unexecuted_branches
+    dead = unexecuted_branches(lib, body, branch_log)
+    chk.ob('R12.3', "every branch of the classifier is executed by some word, so the bounded exploration speaks for the whole function (never executed: %s)" %
+           (', '.join(dead[:4]) or 'none'), not dead, body['span'], 'bounded-covers-all-branches')
     chk.explanation = ("monotonic_prop is written in a form from which no single fold automaton can be extracted (%s); it was instead evaluated as written on "
                        "all %d words of neighbour relations up to length %d (relations only, no numbers): bounded, not a proof for all lengths." % (why, n_words, L))
 
